@@ -199,6 +199,8 @@ def P(pid):
             ('RF-B commit / prove base agreement', CL.rule_commit_prove_base_agreement, 3),
             ('RF-J carried commitments are equated', CL.rule_carried_commitment_equalities, 6),
             ('RF-K every ZKPoK leaf gates acceptance', lambda c: CL.rule_every_leaf_gates(c, which=('zkpok',)), 40),
+            ('RF-D sub-verifiers cannot be switched off by the proof', CL.rule_checks_not_skippable_by_artefact, 8),
+            ('RF-P cursor discipline', CL.rule_cursor_discipline, 10),
         ]
         meta['explanation'] = ('Decided (necessary): every use of the secret key in blind_sign is dominated by verify_proof == true on the very C, C_trusted, pk, bases, key and positions '
                                'that are signed; verify_proof is gated by the multi-secret PoK, the per-attribute PoKs / range proofs and the PoK / range proof of r; each per-attribute commitment '
@@ -210,6 +212,8 @@ def P(pid):
             ('RF-D proof_verify gates', lambda c: rf_gates.rule_accept_requirements(c, CL.C15_REQS), 3),
             ('RF-J carried commitments are equated', CL.rule_carried_commitment_equalities, 6),
             ('RF-K every PoKSignature leaf gates acceptance', lambda c: CL.rule_every_leaf_gates(c, which=('pok',)), 40),
+            ('RF-D sub-verifiers cannot be switched off by the proof', CL.rule_checks_not_skippable_by_artefact, 8),
+            ('RF-P cursor discipline (revealed / hidden position bookkeeping)', CL.rule_cursor_discipline, 10),
         ]
         meta['explanation'] = ('Decided (necessary): the recomputed challenge equality gates acceptance and depends on all nine responses, the four commitment values, both keys, the bases, the revealed '
                                'attributes and the attribute count; Ce is equated with the range proof on e and each per-attribute commitment with its range proof; every serialised leaf of the proof '
@@ -219,6 +223,7 @@ def P(pid):
             ('RF-D range proof gates', lambda c: rf_gates.rule_accept_requirements(c, CL.C16_REQS), 7),
             ('RF-J proofs of square are about the decomposition', CL.rule_carried_commitment_equalities, 6),
             ('RF-C Fiat-Shamir ingredients', CL.rule_range_proof_hash_sites, 15),
+            ('RF-Q tolerance exponent shape', CL.rule_tolerance_exponent, 2),
         ]
         meta['explanation'] = ('Decided (necessary): acceptance of a Boudot range proof is gated by E\' == E^(2^T), the two decomposition equalities, both proofs of square and both larger-interval '
                                'proofs, each depending on the commitment, bases, modulus and bounds; the commitment carried by each proof of square is equated with E_a_1 / E_b_1 (the transplant defect); '
@@ -226,13 +231,14 @@ def P(pid):
     elif pid == 'C17':
         R = [
             ('RF-I no opening in the serialised proof types', CL.rule_no_opening_serialised, 4),
+            ('RF-G2 hidden attributes are always blinded (mask selection)', CL.rule_mask_vectors, 8),
         ]
         meta['explanation'] = ('Decided completely for the structural reading: the leaves the (derived) Serialize impls of CL03ZKPoK and CL03PoKSignature emit are enumerated from the resolved impl bodies; '
                                'none may be the randomness of a commitment to a hidden value. On this tree seven such leaves are emitted (known findings: the repair changes the wire format). '
                                'Computational hiding is not decided.')
     elif pid == 'C18':
         R = [
-            ('RF-Q key / parameter generation loops and shapes', rf_bits.rule_key_generation, 18),
+            ('RF-Q key / parameter generation loops and shapes', rf_bits.rule_key_generation, 20),
             ('RF-Q random helpers', rf_bits.rule_random_helpers, 6),
         ]
         meta['explanation'] = ('Decided (complete given the rug contracts is_probably_prime / next_prime / secure_pow_mod): both copies of the safe-prime search leave each loop only after the primality '
@@ -241,6 +247,7 @@ def P(pid):
     elif pid == 'C19':
         R = [
             ('RF-H response masks vs challenge / secret lengths', rf_bits.rule_response_masking, 17),
+            ('RF-G2 one fresh draw per mask element', CL.rule_mask_vectors, 8),
         ]
         meta['explanation'] = ('Decided completely for the two quotient attacks the property names, by bit-length arithmetic over the MIR evaluated for CL1024/2048/3072: every response mask + challenge * secret '
                                'in the four sigma-protocol provers must have mask_bits >= 256 + 65 (N1), and for responses whose secrets differ by one factor the denominator mask must dominate its product (N2). '
@@ -265,13 +272,13 @@ CONTROLS = {
     'C10': ['seeded/C10-a/patch.diff'],
     'C11': ['seeded/C11-a/patch.diff'],
     'C12': ['selftest/mutants/unfix-ae1f505.patch', 'seeded/C12-a/patch.diff'],
-    'C13': ['selftest/mutants/unfix-4faa0f0.patch'],
-    'C14': ['selftest/mutants/unfix-2e6b8d5.patch', 'selftest/mutants/unfix-2d01ace.patch'],
-    'C15': ['selftest/mutants/unfix-2d01ace.patch'],
-    'C16': ['selftest/mutants/unfix-b52ed69.patch'],
-    'C17': [],
-    'C18': [],
-    'C19': [],
+    'C13': ['selftest/mutants/unfix-4faa0f0.patch', 'seeded/C13-a/patch.diff'],
+    'C14': ['selftest/mutants/unfix-2e6b8d5.patch', 'selftest/mutants/unfix-2d01ace.patch', 'seeded/C14-a/patch.diff'],
+    'C15': ['selftest/mutants/unfix-2d01ace.patch', 'seeded/C15-a/patch.diff'],
+    'C16': ['selftest/mutants/unfix-b52ed69.patch', 'seeded/C16-a/patch.diff'],
+    'C17': ['seeded/C17-a/patch.diff'],
+    'C18': ['seeded/C18-a/patch.diff'],
+    'C19': ['seeded/C19-a/patch.diff'],
 }
 
 # rules that are also evaluated on the other production configurations in the thorough tier (guards against feature-gated divergence)
